@@ -197,6 +197,7 @@ class Fn:
         self._drop_flags = None
         self._origin_cache = {}
         self._var_cache = {}
+        self._identity_cache = {}
         self.return_blocks = [b["i"] for b in self.blocks if not b["cleanup"] and b["term"]["k"] == "return"]
 
     def _is_unreachable(self, i):
@@ -431,6 +432,18 @@ class Fn:
     def vars_of_place(self, place):
         return self.vars_of_operand({"k": "copy", "place": place})
 
+    def storage_of_place(self, place):
+        """Origins of a place *as storage*: like origins_of_place, but a call that returns an
+        owned value (clone, to_owned, a getter returning a copy) is not looked through -
+        writing into its result does not write into what it was copied from."""
+        old_cache, old_mode = self._origin_cache, getattr(self, "_identity_mode", False)
+        self._origin_cache = self._identity_cache
+        self._identity_mode = True
+        try:
+            return self._origins(place["local"], self._steps(place["proj"]), frozenset())
+        finally:
+            self._origin_cache, self._identity_mode = old_cache, old_mode
+
     def _origins(self, local, steps, visiting):
         key = (local, steps)
         if key in self._origin_cache:
@@ -529,6 +542,11 @@ class Fn:
                 aty = self.local_ty(cs.args[0]["place"]["local"])["s"]
             v = "Some" if aty.startswith("std::option::Option") else "Ok"
             return self._op_origins(cs.args[0], (("variant", v), ("field", 0)) + tuple(steps[2:]), visiting)
+        if getattr(self, "_identity_mode", False) and not cs.dest["proj"] and not self.local_ty(cs.dest["local"])["s"].startswith(("&", "*")) \
+                and (cs.name in ("clone", "to_owned", "to_vec", "to_string", "cloned", "copied", "clone_from") or
+                     (p not in PASS_THROUGH and self.prog.return_summary(cs) is not None)):
+            # a copy (or a getter handing out an owned copy) is new storage
+            return {(("call", self.id, cs.bb, cs.path),) + steps}
         if p in PASS_THROUGH and cs.args:
             return self._op_origins(cs.args[0], steps, visiting)
         if p in ITER_SOURCES and cs.args:
@@ -705,6 +723,8 @@ class Fn:
 
     def _drop_only_block(self, i):
         b = self.blocks[i]
+        if b.get("tramp") is not None:
+            return self._drop_only_block(b["tramp"])
         for st in b["stmts"]:
             if st["k"] != "assign":
                 return False
